@@ -179,7 +179,7 @@ impl RedbKVVStore {
 //@sub /let tx = self\.db\.begin_write\(\)\.vx_expect\(\);/ => let mut tx = self.db.vx_begin_write();
 //@sub /let mut table = tx\.open_table\(TABLE\)\.vx_expect\(\);/ => 
 //@sub /let existing = table\.get\(key\)\.vx_expect\(\)\.vx_expect\(\);/ => let existing = tx.vx_get(key);
-//@sub /if existing\.value\(\) != &vv \{/ => if !vx_vec_eq(&existing, &vv) {
+//@sub /existing\.value\(\) != &vv/ => !vx_vec_eq(&existing, &vv)
 //@sub /table\.insert\(key, vv\.as_slice\(\)\)\.vx_expect\(\);/ => tx.vx_insert(key, vv.as_slice());
 //@sub /drop\(table\);/ => 
 //@sub /tx\.abort\(\)\.vx_expect\(\);/ => tx.vx_abort();
